@@ -407,6 +407,9 @@ func checkDelivery(r *Result, prop string) []Violation {
 						if nnl > 0 && j.PubID == id {
 							cause = "not-a-drop"
 						}
+						if c.Conn != nil && !registeredAs(r, w.EndSeq, id, c.Conn.Idx) {
+							cause = "not-a-drop" // the client registry no longer maps the id to this connection: a C14 finding, not a drop
+						}
 						if cause != "not-a-drop" {
 							out = append(out, viol("C34", "drop-not-reported-to-hooks", fmt.Sprintf("publish op %d %s was not written to connected session %q and no hook was told about a drop (cause: %s)", oi, op.Pkt, id, cause), w.EndSeq, "cause", cause))
 						}
@@ -727,3 +730,22 @@ func checkRetainedReplay(r *Result, prop string) []Violation {
 
 func checkC02(r *Result) []Violation { return checkRetainedReplay(r, "C02") }
 func checkC05(r *Result) []Violation { return checkRetainedReplay(r, "C05") }
+
+// registeredAs reports whether, at the last quiescent probe at or before seq, the broker's client registry
+// mapped id to connection conn. Without a probe it answers true.
+func registeredAs(r *Result, seq int, id string, conn int) bool {
+	var last *Probe
+	for _, e := range r.H.Evs {
+		if e.Seq > seq {
+			break
+		}
+		if e.Kind == "quiesce" && e.Probe != nil {
+			last = e.Probe
+		}
+	}
+	if last == nil {
+		return true
+	}
+	cp, ok := last.Clients[id]
+	return ok && cp.Conn == conn
+}
